@@ -346,6 +346,25 @@ fn main() {
         let (o3, o4) = (zv::run_bin(&dr, None, &[], None), zv::run_bin(&["version", "--source", "stdin", "--output-format", "pep440"], Some(&doc), &[], None));
         if o3.stdout != o4.stdout || o3.status != o4.status { ctx.violation("binary_pipe_differs", format!("custom array of {n} elements"), json!({"kind":"proc-large","n":n}), format!("direct {:?} piped exit {} {:?}", o3.stdout_str(), o4.status, truncate(&o4.stderr_str(), 120))); }
     }
+    // multi-byte text at every alignment in documents of 10-40 KB (a reader decoding fixed-size chunks would split a character),
+    // and bytes that are not UTF-8 at all inside a string value (not valid RON: must be refused)
+    for unit in ["é", "€", "🙂"] { for shift in 0..4usize { for n in [3000usize, 6000, 9000] {
+        let branch = format!("{}{}", "a".repeat(shift), unit.repeat(n));
+        if branch.len() > 100_000 { continue; }
+        let tz = a(&["version", "--source", "none", "--tag-version", "1.2.3", "--bumped-branch", &branch, "--output-format", "zerv"]);
+        let o1 = zv::run_bin(&tz, None, &[], None);
+        s5.inc("process_conformance_cases"); s5.inc("multibyte_alignment_documents");
+        if o1.status != 0 { ctx.violation("large_document_not_emitted", format!("branch of {n} x {unit:?} shifted by {shift}"), json!({"kind":"proc-align"}), truncate(&o1.stderr_str(), 200)); continue; }
+        let o2 = zv::run_bin(&["version", "--source", "stdin", "--output-format", "zerv"], Some(&o1.stdout_str()), &[], None);
+        if o2.status != 0 || o2.stdout != o1.stdout { ctx.violation("large_document_does_not_round_trip", format!("branch of {n} x {unit:?} shifted by {shift} bytes ({} bytes of RON)", o1.stdout.len()), json!({"kind":"proc-align","unit":unit,"shift":shift,"n":n}), format!("re-emission exit {} ({} vs {} bytes) {}", o2.status, o2.stdout.len(), o1.stdout.len(), truncate(&o2.stderr_str(), 160))); }
+    }}}
+    for (name, bad) in [("0xFF in a string", b"\xff".to_vec()), ("lone continuation byte", b"\x80".to_vec()), ("truncated 3-byte sequence", b"\xe2\x82".to_vec()), ("overlong NUL", b"\xc0\x80".to_vec()), ("UTF-16 surrogate", b"\xed\xa0\x80".to_vec())] {
+        let mut doc = b"(schema:(core:[var(Major)],extra_core:[],build:[var(BumpedBranch)]),vars:(major:Some(1),bumped_branch:Some(\"m".to_vec();
+        doc.extend(&bad); doc.extend(b"in\")))");
+        let o = proc::run(&proc::Run { program: &proc::zerv_bin(), args: a(&["version", "--source", "stdin"]), stdin: Some(doc), env: proc::base_env(), cwd: None, timeout: std::time::Duration::from_secs(60) }).unwrap_or_else(|e| machinery_error(&format!("spawn: {e}")));
+        s5.inc("process_conformance_cases"); s5.inc("invalid_utf8_documents");
+        if o.status == 0 { ctx.violation("unparseable_document_rendered", format!("stdin document with {name}"), json!({"kind":"proc-utf8","what":name}), format!("printed {:?}", o.stdout_str())); }
+    }
     let all = s1.merge(s2).merge(s3).merge(s4).merge(s5.clone());
     let mut cov = Coverage::default();
     cov.states = objects.len() as u64 + pipe_jobs.len() as u64 + rule_schemas.len() as u64 + mutants.len() as u64;
